@@ -127,6 +127,40 @@ func CSel() int {
 	}
 }
 
+// a shared resource taken for the duration of the call and released by a DEFERRED call (Mutex.Unlock,
+// WaitGroup.Done), with the rendez-vous inside the section: when the evaluation that is cancelled is
+// stopped inside it, the deferred release must still happen, or every later use waits for ever
+var gmu sync.Mutex
+
+var gwg sync.WaitGroup
+
+func DM() int {
+	gmu.Lock()
+	defer gmu.Unlock()
+	c := make(chan int)
+	go func() {
+		host.Wait()
+		c <- 42
+	}()
+	v := <-c
+	return v + 1
+}
+
+func DW() int {
+	gwg.Wait()
+	gwg.Add(1)
+	defer gwg.Done()
+	c := make(chan int)
+	go func() {
+		host.Wait()
+		c <- 42
+	}()
+	select {
+	case v := <-c:
+		return v + 1
+	}
+}
+
 // bodies without channels: mutex and WaitGroup, calls of other definitions, a function literal
 // created and called inside the call
 func MU() int {
@@ -182,13 +216,13 @@ func ML() int {
 `
 
 var c10expr = map[string]string{"named": "F(2)", "method": "T0.M(2)", "closvar": "Clo(2)", "methval": "MV(2)", "chanfn": "CC()",
-	"chan-send": "CSend()", "chan-recv2": "CRecv2()", "chan-range": "CRange()", "chan-select": "CSel()", "mutex": "MU()", "callsother": "CO()", "mkclosure": "MK()",
+	"chan-send": "CSend()", "chan-recv2": "CRecv2()", "chan-range": "CRange()", "chan-select": "CSel()", "chan-defer-mutex": "DM()", "chan-defer-wg": "DW()", "mutex": "MU()", "callsother": "CO()", "mkclosure": "MK()",
 	"fv-arg": "FA()", "fv-var": "FV()", "fv-ret": "FR()", "fv-method": "ML()"}
 var c10name = map[string]string{"named": "F", "method": "T0.M", "closvar": "Clo", "methval": "MV", "chanfn": "CC",
-	"chan-send": "CSend", "chan-recv2": "CRecv2", "chan-range": "CRange", "chan-select": "CSel", "mutex": "MU", "callsother": "CO", "mkclosure": "MK",
+	"chan-send": "CSend", "chan-recv2": "CRecv2", "chan-range": "CRange", "chan-select": "CSel", "chan-defer-mutex": "DM", "chan-defer-wg": "DW", "mutex": "MU", "callsother": "CO", "mkclosure": "MK",
 	"fv-arg": "FA", "fv-var": "FV", "fv-ret": "FR", "fv-method": "ML"}
 var c10want = map[string]string{"named": "15", "method": "7", "closvar": "8", "methval": "7", "chanfn": "43",
-	"chan-send": "43", "chan-recv2": "43", "chan-range": "43", "chan-select": "43", "mutex": "43", "callsother": "21", "mkclosure": "42",
+	"chan-send": "43", "chan-recv2": "43", "chan-range": "43", "chan-select": "43", "chan-defer-mutex": "43", "chan-defer-wg": "43", "mutex": "43", "callsother": "21", "mkclosure": "42",
 	"fv-arg": "42", "fv-var": "42", "fv-ret": "42", "fv-method": "42"}
 
 // kinds whose body goes through a blocking channel construct (Y: Tick; Block; Tick, like CC)
@@ -542,7 +576,7 @@ func (s *c10state) region(ev c10ev) string {
 			return "closure-after-cancel"
 		}
 		return ""
-	case "chanfn", "chan-send", "chan-recv2", "chan-range", "chan-select":
+	case "chanfn", "chan-send", "chan-recv2", "chan-range", "chan-select", "chan-defer-mutex", "chan-defer-wg":
 		if host {
 			if !s.sinceExec {
 				return "hostheld-between"
@@ -565,8 +599,8 @@ func (s *c10state) region(ev c10ev) string {
 }
 
 func c10gen(r *rng, stream string, maxLen int) []c10ev {
-	kinds := []string{"named", "method", "closvar", "methval", "chanfn", "chan-send", "chan-recv2", "chan-range", "chan-select", "mutex", "callsother", "mkclosure", "fv-arg", "fv-var", "fv-ret", "fv-method"}
-	chans := []string{"chanfn", "chan-send", "chan-recv2", "chan-range", "chan-select"}
+	kinds := []string{"named", "method", "closvar", "methval", "chanfn", "chan-send", "chan-recv2", "chan-range", "chan-select", "chan-defer-mutex", "chan-defer-wg", "mutex", "callsother", "mkclosure", "fv-arg", "fv-var", "fv-ret", "fv-method"}
+	chans := []string{"chanfn", "chan-send", "chan-recv2", "chan-range", "chan-select", "chan-defer-mutex", "chan-defer-wg"}
 	vias := []string{"eval", "evalctx", "host-eval", "host-sym"}
 	cancels := []string{"busy", "busy", "blocked", "expired", "in-def", "in-def"}
 	st := &c10state{}
@@ -609,7 +643,7 @@ func c10gen(r *rng, stream string, maxLen int) []c10ev {
 
 func c10coq(h []c10ev) string {
 	k := map[string]string{"named": "KNamed", "method": "KMethod", "closvar": "KClosVar", "methval": "KMethVal", "chanfn": "KChanFn",
-		"chan-send": "KChanFn", "chan-recv2": "KChanFn", "chan-range": "KChanFn", "chan-select": "KChanFn", "mutex": "KNamed", "callsother": "KNamed", "mkclosure": "KNamed",
+		"chan-send": "KChanFn", "chan-recv2": "KChanFn", "chan-range": "KChanFn", "chan-select": "KChanFn", "chan-defer-mutex": "KChanFn", "chan-defer-wg": "KChanFn", "mutex": "KNamed", "callsother": "KNamed", "mkclosure": "KNamed",
 		"fv-arg": "KNamed", "fv-var": "KNamed", "fv-ret": "KNamed", "fv-method": "KNamed"}
 	v := map[string]string{"eval": "VEval", "evalctx": "VEvalCtx", "host-eval": "VHost", "host-sym": "VHost"}
 	c := map[string]string{"busy": "CBusy", "blocked": "CBlocked", "expired-ran": "CExpRan", "expired-not": "CExpNot", "in-def": "CInDef"}
@@ -670,7 +704,7 @@ func runC10(args []string) error {
 	add("plain-eval-chan", []c10ev{use("chanfn", "eval"), busy, use("chanfn", "eval"), use("chanfn", "evalctx"), use("chanfn", "eval")})
 	// corpus: a definition with a blocking construct whose FIRST execution happens inside the evaluation that
 	// is cancelled (cold session), then used again; and the same after a first normal execution (warm)
-	for _, k := range []string{"chanfn", "chan-send", "chan-recv2", "chan-range", "chan-select"} {
+	for _, k := range []string{"chanfn", "chan-send", "chan-recv2", "chan-range", "chan-select", "chan-defer-mutex", "chan-defer-wg"} {
 		indef := c10ev{Op: "cancel", What: "in-def", Kind: k}
 		for _, warm := range []bool{false, true} {
 			addw("", []c10ev{indef, use(k, "evalctx"), use("named", "eval"), use(k, "evalctx"), busy, use(k, "evalctx")}, warm)
@@ -704,7 +738,7 @@ func runC10(args []string) error {
 			sm.count("skipped-after-repeated-run-aways")
 			continue
 		}
-		in := map[string]any{"definitions": "F, T.M, T0, Clo (function literal), MV (method value), CC CSend CRecv2 CRange CSel (rendez-vous through receive, send, two-value receive, range, select), MU (mutex, WaitGroup), CO (calls F and T0.M), MK (creates and calls a function literal); host holds Eval(name) and Symbols values",
+		in := map[string]any{"definitions": "F, T.M, T0, Clo (function literal), MV (method value), CC CSend CRecv2 CRange CSel (rendez-vous through receive, send, two-value receive, range, select), DM DW (the same inside a section guarded by a mutex / counted by a WaitGroup and released by a deferred call), MU (mutex, WaitGroup), CO (calls F and T0.M), MK (creates and calls a function literal); host holds Eval(name) and Symbols values",
 			"session": map[bool]string{true: "warm: every definition executed once before the history", false: "cold: the definitions with a blocking construct are first executed by the history"}[metas[i].warm], "history": res.HistEvents}
 		if res.Err != "" {
 			in["history_generated"] = m.h
